@@ -129,6 +129,8 @@ def _reader_mass(ctx):
         iso2 = lambda s_, a_: I.heap[I.heap[I.getattr(T2, s_).id]["_isotopes"][a_].id]
         diffs = [(s_, a_, k) for s_, cells in blocks.items() for a_ in cells for k in ("_mass", "_abundance", "_abundance_unc")
                  if iso2(s_, a_).get(k) != iso(s_, a_).get(k)]
+        el2 = lambda s_: I.heap[I.getattr(T2, s_).id]
+        diffs += [(s_, "element", k) for s_ in ("H", "Fe", "U", "n") for k in ("_mass", "_mass_unc") if el2(s_).get(k) != el(s_).get(k)]
         ctx.check(not diffs, "R6", "a second private table gets the same masses and abundances as the first",
                   f"differs for {diffs[:4]} (state consumed or shared between init calls)", site)
         ctx.check(all(iso2(s_, a_) is not iso(s_, a_) for s_, cells in blocks.items() for a_ in cells), "R6",
